@@ -1008,6 +1008,55 @@ def r6(k: Kit) -> None:
                   else None)
 
 
+def r7(k: Kit) -> None:
+    """Between our NEWKEYS and the peer's only NEWKEYS is called for."""
+    from .c03 import kex_handler_tables
+    rep = k.rep
+    idx = k.idx
+    rep.rule('C06.R7', 'send_newkeys clears the key exchange handler '
+             '(self._kex = None) on every normal path, so method-specific '
+             'kex messages repeated after our NEWKEYS find no handler; the '
+             'server-side handlers of group-exchange REQUEST messages, '
+             'whatever their spelling, do nothing but raise once a group '
+             'has been chosen (self._p set)')
+    fi = k.func(CONN + 'send_newkeys')
+    g = k.cfg(fi)
+    clears = [n.id for n, v in k.stores_to(fi, 'self._kex')
+              if isinstance(v, ast.Constant) and v.value is None]
+    w = g.must_pass(clears, follow_exc=False)
+    rep.check(bool(clears) and w is None, 'C06.R7',
+              key(fi, 'kex handler dropped with our NEWKEYS'),
+              'every normal path stores self._kex = None',
+              'the kex handler outlives our NEWKEYS: a second '
+              'KEX_ECDH_INIT sent before the peer\'s NEWKEYS is processed '
+              'again (second REPLY, second NEWKEYS, new pending keys) '
+              'instead of "Key exchange not in progress"', fi.loc(fi.node),
+              g.describe_path(w) if w else None)
+    rows = []
+    for cls, nm, hf in kex_handler_tables(k):
+        if hf is None or 'Gex' not in cls.name:
+            continue
+        tbl_names = set()
+        for c in idx.mro(cls):
+            for st in c.node.body:
+                tgt = st.targets[0] if isinstance(st, ast.Assign) else \
+                    getattr(st, 'target', None)
+                val = getattr(st, 'value', None)
+                if isinstance(tgt, ast.Name) and \
+                        tgt.id == '_packet_handlers' and \
+                        isinstance(val, ast.Dict):
+                    for kx, vx in zip(val.keys, val.values):
+                        vn = vx.attr if isinstance(vx, ast.Attribute) else \
+                            getattr(vx, 'id', None)
+                        if vn == nm and 'REQ' in (dotted(kx) or ''):
+                            tbl_names.add(dotted(kx))
+        if tbl_names and (hf.qual, 'self._p', False) not in rows:
+            rows.append((hf.qual, 'self._p', False))
+    rep.floor('C06.R7', 'group exchange request handlers', len(rows), 1)
+    before = len(rep.obligations)
+    state_guards(k, 'C06.R7', rows)
+
+
 def run(idx, rep, tier):
     k = Kit(idx, rep)
     rep.assumptions += NOT_DECIDED
@@ -1019,3 +1068,4 @@ def run(idx, rep, tier):
     r4(k)
     r5(k)
     r6(k)
+    r7(k)
